@@ -19,7 +19,8 @@ RULE = ("worker class {sync,gthread,gevent,eventlet} x bind spelling {numeric IP
         "marker. non-trivial = a request was in flight across a HUP; distinct by cell")
 ASSUMPTIONS = [
     "for gthread/gevent/eventlet a connection accepted but not yet read may be closed without any response byte (the statement "
-    "promises every accepted connection only for sync): such empty responses are counted, not flagged",
+    "promises every accepted connection only for sync): such empty responses are counted, not flagged; a gthread connection whose "
+    "job has been handed to the thread pool counts as started (one cell: a request queued behind the long one must be answered by the old worker)",
     "quiescence = the worker set is stable for 1.5 s, waited for at most graceful_timeout + 8 s",
 ]
 BUDGET = {"quick": (16, 0), "thorough": (16, 0)}
@@ -63,6 +64,8 @@ def cells():
     # two listeners: the request in flight across the HUP is on one of them, the short requests go to the first
     for kind, which in itertools.product(KINDS, [0, 1]):
         yield {"kind": kind, "bind": "unix", "start_workers": 1, "pre": [], "workers": [1], "hist": NHIST + which, "two_binds": which}
+    # gthread with one thread: a second request is already handed to the pool (queued behind the long one) when the HUP arrives
+    yield {"kind": "gthread", "bind": "unix", "start_workers": 1, "pre": [], "workers": [1], "hist": NHIST + 4, "queued": True}
     # two listeners of different kinds (a TCP address and a unix path in one bind list)
     for kind in KINDS:
         yield {"kind": kind, "bind": "tcp", "start_workers": 1, "pre": [], "workers": [2], "hist": NHIST + 3, "two_binds": 0}
@@ -78,16 +81,16 @@ def extra_cases(tier, seed, shard, nshards):
                 seen.add((c["kind"], c["bind"]))
                 seen.add(("h", c["hist"]))
                 picked.append(c)
-        two = [c for c in cs if c.get("two_binds") is not None or c.get("rebind")]       # the two-listener and moved-listener cells are all kept
+        two = [c for c in cs if c.get("two_binds") is not None or c.get("rebind") or c.get("queued")]       # the two-listener and moved-listener cells are all kept
         picked = [c for c in picked if c not in two]
-        cs = two + (picked + [c for c in cs if c not in picked and c not in two])[:40 - len(two)]
+        cs = two + (picked + [c for c in cs if c not in picked and c not in two])[:41 - len(two)]
     for i, c in enumerate(cs):
         if i % nshards == shard:
             j = int(hashlib.sha1(("%d-%d" % (seed, i)).encode()).hexdigest()[:4], 16) / 65535.0
             yield dict(c, gap=round(0.05 + 0.25 * j, 2) if (c.get("slow_boot") or c.get("slow_reload")) else round(0.2 + 0.8 * j, 2))
 
 
-EXHAUSTIVE_NOTE = "(+ 8 two-listener cells) thorough: all %d cells (4 classes x %d bind spellings x %d histories); quick: a seeded slice of up to 40 covering every class x bind and every history" % (4 * len(BINDS) * NHIST, len(BINDS), NHIST)
+EXHAUSTIVE_NOTE = "(+ 8 two-listener cells) thorough: all %d cells (4 classes x %d bind spellings x %d histories); quick: a seeded slice of up to 41 covering every class x bind and every history" % (4 * len(BINDS) * NHIST, len(BINDS), NHIST)
 
 
 class Load(threading.Thread):
@@ -154,7 +157,7 @@ def run_case(case):
         import tempfile as _tf
         second = _os.path.join(_tf.gettempdir(), "verif-c10-second-%d-%d.sock" % (_os.getpid(), int(time.time() * 1000) % 100000))
     srv = renv.Server(kind=kind, workers=None, bind=bind, graceful=G, timeout=30,
-                      threads=2 if kind == "gthread" else None, keepalive=2,
+                      threads=(1 if case.get("queued") else 2) if kind == "gthread" else None, keepalive=2,
                       conf_lines=["workers = %d" % case["start_workers"], "raw_env = ['VERIF_MARKER=m0']"] + slow,
                       extra_binds=["unix:" + second] if second else (), bind_in_conf=bool(case.get("rebind")))
     vio = []
@@ -198,6 +201,11 @@ def run_case(case):
         if not srv.started("L1"):
             return Outcome([], False, classes + ["inconclusive:long-request-not-started"], sample={"case": case})
         long_pid = open(srv.scratch + "/started-L1").read().strip()
+        qc = None
+        if case.get("queued"):
+            qc = srv.connect()
+            qc.sendall(b"GET /pid?queued HTTP/1.1\r\nHost: x\r\nConnection: close\r\n\r\n")
+            time.sleep(0.5)          # the only pool thread is busy: the loop accepts, reads nothing yet and submits the job
         t_last_hup = None
         old_pids = set()
         for i, n in enumerate(case["workers"]):
@@ -213,6 +221,14 @@ def run_case(case):
                 srv.gate_open("L1")
         ldata, lerr = renv.read_all(lc, G + 6)
         lc.close()
+        if qc is not None:
+            qdata, qerr = renv.read_all(qc, G + 6)
+            qc.close()
+            from vlib import ref_response as _rr
+            qr = _rr.parse_response(qdata, 0, "GET") if qdata else None
+            if qr is None or not (qr.ok and qr.complete and qr.status == 200) or ("pid=%s " % long_pid).encode() not in qr.body:
+                V("queued-request-answered", "request-queued-in-the-old-worker-at-hup-not-answered-by-it:" + kind,
+                  {"received": qdata[:200], "error": qerr, "old_worker": long_pid}, "complete response from the old worker")
         final = stable_workers(srv, G + 8)
         time.sleep(0.3)
         load.stop = True
